@@ -48,6 +48,13 @@ ATOMS.update({
     # content-derived columns next to metadata columns (AND/OR only: they are not always present)
     'szpos': ('size > 0', None), 'lc3': ('line_count = 3', None), 'lcge': ('line_count >= 1', None), 'shb': ('is_shebang = true', None),
     'sha': ("sha1 = 'a9993e364706816aba3e25717850c26c9cd0d89d'", None), 'isf': ('is_file = true', None),
+    # conditions whose complement is easy to lose: ordering of text, NaN operands, pattern operators on numbers and booleans,
+    # a literal on the left, fractional and out-of-range literals
+    'tgt': ("name > 'm'", None), 'tbtw': ("name between 'b' and 'n'", None), 'tnbtw': ("name not between 'b' and 'n'", "name between 'b' and 'n'"),
+    'nanmod': ('size % size >= 0', None), 'nansqrt': ('sqrt(size - 10) >= 0', None), 'nanbtw': ('size / size between 0 and 2', None),
+    'szlike': ("size like '1%'", None), 'sznlike': ("size not like '1%'", "size like '1%'"), 'szrx': ("size =~ '^1'", None),
+    'boolike': ("is_dir like 'true'", None), 'litleft': ('10 < size', None), 'litleft2': ('1k >= size', None),
+    'frac': ('size < 10.5', None), 'huge': ('size < 18446744073709551615', None), 'lenrx': ("length(name) rx '^3$'", None),
 })
 
 # the meaning of the atoms whose pattern is computed per entry (their rows cannot be taken on trust from a run in
@@ -61,7 +68,8 @@ MEANING = {
 TUPLES = {
     'quick': [('gt', 'like', 'isdir', 'hl'), ('ge', 'glob', 'bare', 'btw'),
               ('eq', 'eeq', 'le', 'like'), ('nlike', 'gt', 'nbtw', 'bare'), ('lt', 'ne', 'rx', 'hl'),
-              ('arith', 'len', 'hlge', 'glob'), ('le', 'nrx', 'ene', 'eq'), ('likeA', 'nrxA', 'rxA', 'globA'), ('szpos', 'lc3', 'issym', 'lcge', 'nonot'), ('isf', 'sha', 'shb', 'lc3', 'nonot', 'symlinks'), ('dyn', 'gt', 'eeqw', 'dynrx'), ('dynall', 'glob', 'dynext', 'lt'),
+              ('arith', 'len', 'hlge', 'glob'), ('le', 'nrx', 'ene', 'eq'), ('likeA', 'nrxA', 'rxA', 'globA'), ('tgt', 'nanmod', 'szlike', 'litleft', 'frac'), ('tbtw', 'tnbtw', 'nansqrt', 'szrx', 'boolike'), ('nanbtw', 'sznlike', 'litleft2', 'huge', 'lenrx'),
+              ('szpos', 'lc3', 'issym', 'lcge', 'nonot'), ('isf', 'sha', 'shb', 'lc3', 'nonot', 'symlinks'), ('dyn', 'gt', 'eeqw', 'dynrx'), ('dynall', 'glob', 'dynext', 'lt'),
               ('issym', 'big', 'symeq', 'like', 'symlinks')],
 }
 TUPLES['thorough'] = TUPLES['quick'] + [('btw', 'rx', 'hl', 'lt'),
@@ -248,7 +256,7 @@ def groups(tier, seed):
         nonot = 'nonot' in tup
         for k in range(0, kmax + 1):
             allmax = 2 if tier == 'quick' or TUPLES[tier].index(tup) >= 3 else 3
-            if tier == 'quick' and TUPLES[tier].index(tup) >= 9:
+            if tier == 'quick' and TUPLES[tier].index(tup) >= 8:
                 allmax = 1        # the special-purpose tuples: every leaf assignment for one connective, leaves in order beyond
             modes = ['all'] if k <= allmax else ['seq']
             for mode in modes:
